@@ -169,7 +169,7 @@ impl Bytes {
     }
 
     pub fn to_formal_string(&self) -> String {
-        pybytes_repr(&self._b, true, false)
+        pybytes_repr(&self._b, true, true)
     }
 
     pub fn pybytes(&self) -> String {
